@@ -777,6 +777,10 @@ func c23Mutate(t *rapid.T, tr *c23Tree, class string, isCheck bool, signHash fun
 	switch class {
 	case "longform-string":
 		it := c23Pick(t, "mutAt", c23Select(tr, func(it *c23Item) bool { return !it.list && len(it.payload()) < 56 }))
+		// the largest payload the short form can carry is the boundary of the canonical-size rule
+		if edge := c23Select(tr, func(it *c23Item) bool { return !it.list && len(it.payload()) == 55 }); len(edge) > 0 && sim.U(t, "mutAtEdge", 2) == 0 {
+			it = c23Pick(t, "mutAtEdgeItem", edge)
+		}
 		if it == nil {
 			return c23Mutate(t, tr, "trailing-top", isCheck, signHash)
 		}
@@ -784,6 +788,9 @@ func c23Mutate(t *rapid.T, tr *c23Tree, class string, isCheck bool, signHash fun
 		return top.enc(), class, c23MustDecode
 	case "longform-list":
 		it := c23Pick(t, "mutAt", c23Select(tr, func(it *c23Item) bool { return it.list && len(it.payload()) < 56 }))
+		if edge := c23Select(tr, func(it *c23Item) bool { return it.list && len(it.payload()) == 55 }); len(edge) > 0 && sim.U(t, "mutAtEdge", 2) == 0 {
+			it = c23Pick(t, "mutAtEdgeItem", edge)
+		}
 		if it == nil {
 			return c23Mutate(t, tr, "len-leading-zero", isCheck, signHash)
 		}
